@@ -106,6 +106,20 @@ struct World<L: Language> {
     desc: Vec<String>,
     /// grow-then-collapse worlds: a node limit in this range is exceeded by the first iteration and undercut again by the second
     limit_hint: Option<(usize, usize)>,
+    /// text of a term that no rule of this world matches (k-th hook call): a hook may add it to the e-graph it is handed
+    hook_term: fn(usize) -> String,
+}
+
+fn hook_term_sym(k: usize) -> String {
+    let mut t = "e".to_string();
+    for _ in 0..=k {
+        t = format!("(idx $p0 {t})");
+    }
+    t
+}
+
+fn hook_term_arith(k: usize) -> String {
+    format!("{}", 100_000 + k)
 }
 
 fn world_sym(rng: &mut Rng) -> Option<World<LSym>> {
@@ -174,7 +188,7 @@ fn world_sym(rng: &mut Rng) -> Option<World<LSym>> {
     }
     let rc = rules.clone();
     desc.push(format!("rules {:?}", rules.iter().map(|r| format!("{}: {} => {}", r.0, r.1, r.2)).collect::<Vec<_>>()));
-    Some(World { eg, tracked, rules, mk: Box::new(move || rc.iter().map(|(n, l, r)| Rewrite::new(n, l, r)).collect()), desc, limit_hint: None })
+    Some(World { eg, tracked, rules, mk: Box::new(move || rc.iter().map(|(n, l, r)| Rewrite::new(n, l, r)).collect()), desc, limit_hint: None, hook_term: hook_term_sym })
 }
 
 fn world_arith(rng: &mut Rng) -> Option<World<LArith>> {
@@ -195,7 +209,7 @@ fn world_arith(rng: &mut Rng) -> Option<World<LArith>> {
     for i in eg.ids() {
         tracked.push(eg.mk_identity_applied_id(i));
     }
-    Some(World { eg, tracked, rules, mk: Box::new(move || chosen.iter().map(mk_rewrite::<()>).collect()), desc, limit_hint: None })
+    Some(World { eg, tracked, rules, mk: Box::new(move || chosen.iter().map(mk_rewrite::<()>).collect()), desc, limit_hint: None, hook_term: hook_term_arith })
 }
 
 /// n towers `(add 3 (mul 2 (add N_i 0)))` over distinct numbers; the first iteration of `(add ?x 0) => (mul ?x 1)` adds e-nodes,
@@ -219,7 +233,7 @@ fn world_collapse(rng: &mut Rng) -> Option<World<LArith>> {
     let rules: Vec<(String, String, String)> = vec![("grow".into(), "(add ?x 0)".into(), "(mul ?x 1)".into()), ("collapse".into(), "(mul ?x 1)".into(), "7".into())];
     desc.push(format!("rules {:?} (start: {start} nodes)", rules.iter().map(|r| format!("{}: {} => {}", r.0, r.1, r.2)).collect::<Vec<_>>()));
     let rc = rules.clone();
-    Some(World { eg, tracked, rules, mk: Box::new(move || rc.iter().map(|(n, l, r)| Rewrite::new(n, l, r)).collect()), desc, limit_hint: Some((start, start + n)) })
+    Some(World { eg, tracked, rules, mk: Box::new(move || rc.iter().map(|(n, l, r)| Rewrite::new(n, l, r)).collect()), desc, limit_hint: Some((start, start + n)), hook_term: hook_term_arith })
 }
 
 fn sentinel<L: Language + 'static>(counter: Rc<Cell<usize>>) -> Rewrite<L> {
@@ -283,7 +297,13 @@ fn judge<L: Language + 'static>(mut w: World<L>, rng: &mut Rng, out: &mut CaseOu
     let mut rws = (w.mk)();
     rws.push(sentinel::<L>(counter.clone()));
     let tracked = w.tracked.clone();
-    let setup = format!("iter_limit={iter_limit} node_limit={node_limit} hook_fails_at={fail_at:?} time_limit_zero={time_zero} runner={use_runner}");
+    // a hook may change the e-graph it is handed (here: it inserts a term that no rule matches, one more e-node per call)
+    let hook_mutates = rng.chance(1, 3);
+    let hook_term = w.hook_term;
+    let setup = format!("iter_limit={iter_limit} node_limit={node_limit} hook_fails_at={fail_at:?} time_limit_zero={time_zero} runner={use_runner} hook_adds_a_term={hook_mutates}");
+    if hook_mutates {
+        out.inc("runs_with_mutating_hook");
+    }
     let hook_calls = Rc::new(Cell::new(0usize));
     let hook_failed = Rc::new(Cell::new(false));
     let res = guard(|| {
@@ -294,9 +314,12 @@ fn judge<L: Language + 'static>(mut w: World<L>, rng: &mut Rng, out: &mut CaseOu
                 .with_iter_limit(iter_limit)
                 .with_node_limit(node_limit)
                 .with_time_limit(if time_zero { Duration::from_secs(0) } else { Duration::from_secs(3600) })
-                .with_hook(move |_r| {
+                .with_hook(move |r| {
                     let k = hc.get();
                     hc.set(k + 1);
+                    if hook_mutates {
+                        r.egraph.add_expr(RecExpr::parse(&hook_term(k)).unwrap());
+                    }
                     if Some(k) == fail_at {
                         hf.set(true);
                         Err(format!("hook-failure-{k}"))
@@ -310,9 +333,12 @@ fn judge<L: Language + 'static>(mut w: World<L>, rng: &mut Rng, out: &mut CaseOu
             let (hc, hf) = (hook_calls.clone(), hook_failed.clone());
             let mut eg = std::mem::replace(&mut w.eg, EGraph::default());
             let rws2 = std::mem::take(&mut rws);
-            let rep = run_eqsat(&mut eg, rws2, iter_limit, if time_zero { 0 } else { 3600 }, move |_eg| {
+            let rep = run_eqsat(&mut eg, rws2, iter_limit, if time_zero { 0 } else { 3600 }, move |eg| {
                 let k = hc.get();
                 hc.set(k + 1);
+                if hook_mutates {
+                    eg.add_expr(RecExpr::parse(&hook_term(k)).unwrap());
+                }
                 if Some(k) == fail_at {
                     hf.set(true);
                     Err(format!("hook-failure-{k}"))
